@@ -7,14 +7,16 @@
 # trees; after EVERY call the dictionaries of the tree are dumped and compared (a) structurally with the
 # extracted model, (b) result and content with the extracted sorted map, (c) with the extracted validity
 # checker (keys ascending, /Limits exact, no /Limits on the root, no empty non-root node, size bound).
-import bisect, itertools, json, os, re
+import bisect, itertools, json, os, re, sys
 import common
+import c18_names
 
 ASSUMPTIONS = [
     "values are integers (the tree code never looks into values beyond non-null)",
     "the driver keeps one current iterator: insert/find/begin/last/end replace it, remove-by-key resets it to end()",
     "starting trees are valid per ISO 32000 7.9.6/7.9.7 (the repair path NNTreeImpl::repair/validate on damaged trees is C08's subject and is not modelled)",
-    "name-tree keys are compared through getUTF8Value(); the PDFDoc/UTF-16 decoding itself is qpdf's (C14 covers it)",
+    "name-tree keys are compared through getUTF8Value(): modelled (Struct/NNKeys.v over C14's models of the QUtil conversions) and tied on all pairs of generated stored strings (namecmp); the text of a stored string that ISO 32000 gives no meaning (odd UTF-16 length, unpaired surrogate, FF FE mark, invalid UTF-8 after the mark, PDFDoc codes 0x7f/0x9f/0xad) is whatever the model says",
+    "the order required of name keys is that of their texts, code point by code point (helper documentation: names are normalized for lookup); the byte-wise order of the stored strings (ISO 32000-2 7.9.6) differs and is recorded as finding C18-F5",
     "iterator insertAfter is only specified when the key belongs at that position (header: DANGER ...); other uses are compared model-vs-implementation only",
     "number keys are exercised within 63 bits (the OCaml runner's int); long long extremes are not",
     "attachments: checked through the qpdf CLI against the extracted Coq specification att_job (Struct/AttachSpec.v, sorted map key -> record id); record fields are compared by this harness; file specifications are those the CLI creates (/F and /UF equal)",
@@ -379,9 +381,14 @@ def make_case(kc, t, shape, length, profile_seq, allow_quirks, every=1):
 def lines_of(case):
     ops = ";".join(case["ops"]) or "-"
     ev = (" %d" % case["every"]) if case.get("every", 1) > 1 else ""
+    # kind "nameraw" (c18_names.py): the model runs on the stored strings; specification and validity checker see texts
     return ("nn %s %d %s %s%s" % (case["kind"], case["t"], case["init_drv"], ops, ev),
             "nn %s %d %s %s%s" % (case["kind"], case["t"], case["init_model"], ops, ev),
-            "nnspec %s %s %s" % (case["kind"], case["init_model"], ops))
+            "nnspec %s %s %s" % (spec_kind(case["kind"]), case.get("init_spec", case["init_model"]), ops))
+
+
+def spec_kind(kind):
+    return "name" if kind == "nameraw" else kind
 
 
 # ------------------------------------------------------------------ evaluation
@@ -466,7 +473,7 @@ def evaluate(cases, drv, runner, shards=4):
     impl = [ERR_RE.sub("err", o) for o in common.run_lines(drv, [l[0] for l in L], shards=shards)]
     model = common.run_lines(runner, [l[1] for l in L], shards=shards)
     spec = common.run_lines(runner, [l[2] for l in L], shards=shards)
-    wf = common.run_lines(runner, ["nnwf %s %d %s" % (c["kind"], c["t"], o) for c, o in zip(cases, impl)], shards=shards)
+    wf = common.run_lines(runner, ["nnwf %s %d %s" % (spec_kind(c["kind"]), c["t"], o) for c, o in zip(cases, impl)], shards=shards)
     return impl, model, spec, wf
 
 
@@ -1321,11 +1328,21 @@ def run(chk):
                        "documents: replaceEmbeddedFile with a new file spec, with the same helper twice, get -> put back, get -> setDescription/setFilename -> "
                        "put back, removeEmbeddedFile, copyForeignObject of every attachment of the second document under a prefix (once and repeatedly), "
                        "QPDFWriter write + re-read; after every call the keys (document helper, fresh helper, getEmbeddedFile), payload bytes, /Size, checksum, "
-                       "dates, MIME type, description and file names against the extracted att_hist_run; non-trivial = history with >= 2 self-replacing calls")
+                       "dates, MIME type, description and file names against the extracted att_hist_run; non-trivial = history with >= 2 self-replacing calls. "
+                       "namecmp: NNTreeImpl::compareKeys (direct call, and through find on one-entry trees) on all ordered pairs of generated sets of stored "
+                       "strings in every spelling (PDFDoc incl. 0x18-0x1f/0x7f-0xa0/0xad, UTF-16BE/LE marks, odd lengths, unpaired surrogates, UTF-8 mark with "
+                       "valid/invalid payloads, near-marks, prefixes, NUL, one text in several spellings) = extracted nk_compare_names/nk_utf8_value; = order of the "
+                       "texts per ISO 32000-2 7.9.2.2/Annex D where ISO gives a text; total-preorder laws on every set; non-trivial = distinct set of texts. "
+                       "nameraw: histories on name trees whose stored keys use every spelling, API = extracted model on the stored strings with the modelled "
+                       "compareKeys (structural) = sorted map over texts. namerepair: validate(true) on such trees (swapped, shuffled, one text twice in one or two "
+                       "spellings, sorted byte-wise) = valid tree of the sorted map over texts = the model's rebuild; non-trivial = tree that had to be rebuilt")
     part_exhaustive(chk, drv, runner)
     part_random(chk, drv, runner)
     part_large(chk, drv, runner)
     part_repair(chk, drv, runner)
+    c18_names.part_namecmp(chk, drv, runner)
+    c18_names.part_nameraw(chk, drv, runner, sys.modules[__name__])
+    c18_names.part_namerepair(chk, drv, runner, sys.modules[__name__])
     part_attach(chk)
     part_attach_api(chk, drv, runner)
 
